@@ -531,8 +531,8 @@ def _duplicate_names_everywhere(seed):
 # ---------------------------------------------------------------------------
 # oracle
 
-class _Timeout(Exception):
-    pass
+class _Timeout(BaseException):
+    """Raised by the alarm; not an Exception, so that no 'except Exception' of the library can swallow it."""
 
 
 def _alarm(sig, frm):
@@ -689,14 +689,21 @@ def _work(task):
     history = []
 
     def fingerprint(m):
+        signal.signal(signal.SIGALRM, _alarm)
+        signal.alarm(5)
         try:
-            mod = ir.from_proto(m)
-        except Exception as e:  # noqa: BLE001
-            return ("raised", type(e).__name__)
-        try:
-            return ("ir", ir.to_proto(mod).SerializeToString(deterministic=True))
-        except Exception as e:  # noqa: BLE001
-            return ("ir_unserialisable", type(e).__name__)
+            try:
+                mod = ir.from_proto(m)
+            except Exception as e:  # noqa: BLE001
+                return ("raised", type(e).__name__)
+            try:
+                return ("ir", ir.to_proto(mod).SerializeToString(deterministic=True))
+            except Exception as e:  # noqa: BLE001
+                return ("ir_unserialisable", type(e).__name__)
+        except _Timeout:
+            return ("timeout", None)
+        finally:
+            signal.alarm(0)
 
     def run(desc, cls, m):
         nonlocal n
